@@ -182,7 +182,11 @@ Inductive vocase :=
 (* sugar value against the general form: Python ==, encodings, types, bounds *)
 | CValSugar (tab : hp_type_tab) (s : valsugar HP) (py_eq : bool) (ser_s ser_g : svalue') (ty_s ty_g : sty) (b_s b_g : option bound)
 (* an operation: input, raised?, encoding (parent 7), decoded object, re-encoding, facts of original and
-   decoded (num_out, signatures, static port type), port kinds of both as interned descriptions *)
+   decoded (num_out, signatures, static port type), port kinds of both as interned descriptions .
+   Also used for the harness case kind "hop": the operation sits on the child node of a module that goes through
+   the JSON text path Hugr.to_json -> Hugr.load_json; then deser / reser / f2 / kinds2 are taken from the operation
+   found on the loaded node, raised also covers to_json / load_json raising, and json_ok says that the written
+   document holds the encoding ser, that the loaded HUGR writes the same document and kept the node's metadata *)
 | COp (tab : hp_type_tab) (o : op') (raised : bool) (ser : sop') (deser : op') (reser : sop') (f1 f2 : facts)
       (kinds1 kinds2 : list N) (json_ok : bool)
 (* a sugar tag operation against ops.Tag with the same tag and sum: encodings, facts *)
